@@ -51,7 +51,8 @@ RULE = ("seeded random scope pairs: per name the runtime side is absent/attribut
         "kind mismatch, classes nested to depth 3, stub parameters a random subset of the runtime ones plus extras, docstrings present/missing on each "
         "side independently; each pair is run through merge_stubs(a,b), merge_stubs(b,a), pkg/m.py+m.pyi in both os.walk orders, the __init__ pair of a "
         "nested subpackage (pkgn/sub) and one level deeper (pkgn/sub/deep) plus a sibling pair inside the subpackage in both orders, top-level module "
-        "or package __init__ pair, pkg + pkg-stubs with optional stub-only / runtime-only submodules and a nested subpackage on both sides, the producer "
+        "or package __init__ pair, pkg + pkg-stubs with optional stub-only / runtime-only submodules, a nested subpackage on both sides and a stubs "
+        "submodule named like an attribute / function / class / import of the runtime __init__, the producer "
         "API (modules visited without parent=, attached with set_member in both orders); every third pair as pkg/a_impl.py + re-exporting m.py + m.pyi "
         "(aliases to loaded targets; every other one through a middle module = chain of two aliases) in the sibling and one nested layout, both orders, and "
         "with the re-exporting module as the package __init__ whose stubs sit in the package or in pkg-stubs (merged twice); runtime classes may derive "
@@ -818,7 +819,15 @@ def _run_case(ctx, d, case, py, pyi, stream, use_model, idx):
                 impl[f"{k}({tag})"], unresolved[f"{k}({tag})"], structure[f"{k}({tag})"] = res, unres, struct
     ctx.observe("nested_subpackage_placements", int(nested))
     extra_stub, extra_rt, nested_c = (idx // 2) % 2 == 1, (idx // 4) % 2 == 1, nested and (idx // 8) % 2 == 1
-    write(d / "C" / "pkgc" / "__init__.py", '"""R package."""\n')
+    # a name bound by the runtime package's __init__ to something that is NOT a module (attribute / function / class / import)
+    # and carried by a SUBMODULE of the stubs package: kind mismatch at module level, the runtime member must stay
+    clash = (None, "attribute", "function", None, "class", "alias")[idx % 6]
+    clash_src = {None: "", "attribute": "clash_n = 1\n", "function": "def clash_n(x):\n    \"\"\"R doc of clash_n.\"\"\"\n",
+                 "class": "class clash_n:\n    a = 1\n", "alias": "from extpkg import clash_n\n"}[clash]
+    write(d / "C" / "pkgc" / "__init__.py", '"""R package."""\n' + clash_src)
+    if clash:
+        write(d / "C" / "pkgc-stubs" / "clash_n.pyi", "def s() -> int: ...\n")
+    ctx.observe("stubs_package_submodule_named_like_a_runtime_member", clash or "no")
     write(d / "C" / "pkgc" / "m.py", py)
     shadow = (idx // 16) % 2 == 1       # the stubs __init__ also binds the name of a stubs submodule (loaded over it before the second merge)
     write(d / "C" / "pkgc-stubs" / "__init__.pyi", "P: int\n" + ("m: int\n" if shadow else ""))
@@ -885,6 +894,12 @@ def _run_case(ctx, d, case, py, pyi, stream, use_model, idx):
                 want["ronly"] = True
             if nested_c:
                 want["sub"] = True
+            if clash:
+                want["clash_n"] = True
+                got_kind = None if "clash_n" not in mm else ("alias" if mm["clash_n"][0] == "alias" else mm["clash_n"][KIND])
+                if got_kind != clash:
+                    ctx.property_failure({**case, "placement": k, "pkgc/__init__.py": clash_src, "pkgc-stubs/clash_n.pyi": "def s() -> int: ..."},
+                                         {"runtime_member_named_like_a_stubs_submodule": got_kind, "expected": clash + " (kind mismatch: left alone)"})
             if pk != want or tree[DOC] != ["R package."]:
                 ctx.property_failure({**case, "placement": k}, {"package_level": pk, "expected": want, "doc": tree[DOC]})
             if nested_c:
@@ -931,7 +946,8 @@ def _run_case(ctx, d, case, py, pyi, stream, use_model, idx):
         + ([["sub", t_py]] if nested_c else [])
     stub_init_c = abstract(visit_file(d / "C" / "pkgc-stubs" / "__init__.pyi", "pkgc"))
     subs_c = [["m", t_pyi]] + ([["sonly", abstract(visit_file(d / "C" / "pkgc-stubs" / "sonly.pyi", "sonly"))]] if extra_stub else []) \
-        + ([["sub", t_pyi]] if nested_c else [])
+        + ([["sub", t_pyi]] if nested_c else []) \
+        + ([["clash_n", abstract(visit_file(d / "C" / "pkgc-stubs" / "clash_n.pyi", "clash_n"))]] if clash else [])
     queries = {
         "direct(py,pyi)": ["merge_stubs", fpy, fpyi],
         "direct(pyi,py)": ["merge_stubs", fpyi, fpy],
